@@ -207,7 +207,7 @@ fn strategy(max_n: usize) -> BoxedStrategy<Case> {
             (
                 prop::collection::vec(key, n),
                 prop_oneof![4 => 1usize..=n.max(1), 1 => Just(n + 1), 1 => Just(n), 1 => Just(1usize)],
-                prop::collection::vec(any::<u64>(), 0..24),
+                crate::rngs::script_strategy(24),
                 prop_oneof![3 => Just(0u8), 1 => 1u8..9],
             )
         })
